@@ -29,6 +29,7 @@ var $callDeferred = (deferred, jsErr, fromPanic) => {
     $stackDepthOffset--;
     var aborted = false; /* this panic was superseded: a newer panic was recovered further up, or the goroutine is exiting */
     var exiting = false; /* runtime.Goexit() is unwinding through this frame */
+    var ownDeferred = deferred; /* the deferred-call list of the function whose epilogue this is (null when called from $panic) */
     var outerPanicStackDepth = $panicStackDepth;
     var outerPanicValue = $panicValue;
 
@@ -86,6 +87,10 @@ var $callDeferred = (deferred, jsErr, fromPanic) => {
                 if (fromPanic) {
                     throw null;
                 }
+                /* A panic that is being re-processed in a function epilogue (after a deferred call
+                   blocked) and is recovered by a deferred call of a CALLER must keep unwinding up
+                   to that caller instead of returning normally from this function. */
+                exiting = deferred !== ownDeferred;
                 return;
             }
         }
